@@ -4,6 +4,7 @@ import WfProofs.VersionRc
 import WfProofs.VersionChain
 import WfProofs.VersionIdem
 import WfProofs.VersionTag
+import WfProofs.VersionNewline
 /-!
 # C34 — release tooling converts and classifies versions consistently
 
@@ -477,6 +478,57 @@ example : semverToPep ['1', '.', '2', '-', 'r', 'c', '.', '3'] = .ok ['1', '.', 
     semverToPep ['1', '.', '2', 'r', 'c', '3'] = .ok ['1', '.', '2', 'r', 'c', '3'] := by decide
 example : semverToPep [Char.ofNat 0x661, '-', 'b', '.', Char.ofNat 0x662] = .ok [Char.ofNat 0x661, 'b', Char.ofNat 0x662] := by decide
 
+/-- **semver → PEP 440 → semver with a final newline** (a version read from a file or a
+command's output): `$` of the semver regex matches before it, so a pre-release is
+converted and the newline dropped; a final release passes through with its newline,
+which `packaging` ignores; either way converting back yields the normalized original. -/
+theorem C34_roundtrip_semver_trailing_newline (r : Raw) (h : r.WF) :
+    semverToPep (r.semver ++ ['\n']) = .ok (if r.pre.isSome then r.pep else r.semver ++ ['\n']) ∧
+    pepToSemver (if r.pre.isSome then r.pep else r.semver ++ ['\n']) = .ok (showSemver r.val) ∧
+    pepToSemver (r.semver ++ ['\n']) = .ok (showSemver r.val) := by
+  have hm := semverMatch_semver_newline r h
+  have hp := parsePep_semver_newline r h
+  refine ⟨?_, ?_, by simp [pepToSemver, hp]⟩
+  · unfold semverToPep
+    rw [hm]
+    cases hpre : r.pre with
+    | none => simp
+    | some p =>
+      obtain ⟨l, num⟩ := p
+      have hl : l.chars ∈ Gen.Version.labels := by cases l <;> decide
+      simp [Raw.pep, hpre, hl]
+  · cases hpre : r.pre with
+    | none =>
+      have hp' := hp
+      simp only [Option.isSome_none, Bool.false_eq_true, if_false]
+      simp [pepToSemver, hp']
+    | some p =>
+      simp only [Option.isSome_some, if_true]
+      simp [pepToSemver, parsePep_pep r h]
+
+example : semverToPep ['1', '.', '2', '-', 'r', 'c', '.', '3', '\n'] = .ok ['1', '.', '2', 'r', 'c', '3'] := by decide
+example : semverToPep ['1', '.', '2', '\n'] = .ok ['1', '.', '2', '\n'] ∧ pepToSemver ['1', '.', '2', '\n'] = .ok ['1', '.', '2'] := by decide
+
+/-- White space around a version (any of the 29 code points `\s` matches, any amount)
+is invisible to every function that goes through `Version(...)`: both conversions from
+PEP 440 and the normal form are those of the bare string, for both spellings with
+arbitrary digit runs. -/
+theorem C34_whitespace_irrelevant (r : Raw) (h : r.WF) (pre post : List Char)
+    (hpre : ∀ c ∈ pre, isSpace c = true) (hpost : ∀ c ∈ post, isSpace c = true) :
+    pepToSemver (pre ++ r.pep ++ post) = .ok (showSemver r.val) ∧
+    normalize (pre ++ r.pep ++ post) = .ok (showPep r.val) ∧
+    pepToSemver (pre ++ r.semver ++ post) = .ok (showSemver r.val) := by
+  obtain ⟨d, t, hs, hd⟩ := r.pep_head h
+  obtain ⟨d', t', hs', hd'⟩ := r.semver_head h
+  have h1 := parsePep_pad hs hd (r.pep_endsDig h) pre post hpre hpost
+  have h2 := parsePep_pad hs' hd' (r.semver_endsDig h) pre post hpre hpost
+  rw [parsePep_pep r h] at h1
+  rw [parsePep_semver r h] at h2
+  exact ⟨by unfold pepToSemver; rw [h1], by unfold normalize; rw [h1], by unfold pepToSemver; rw [h2]⟩
+
+example : isSpace (Char.ofNat 0x2003) = true ∧ isSpace (Char.ofNat 0x85) = true := by decide
+example : pepToSemver [Char.ofNat 0x2003, '\t', '1', '.', '0', 'a', '1', Char.ofNat 0x85] = .ok ['1', '.', '0', '-', 'a', '.', '1'] := by decide
+
 /-- Different versions never share a spelling: both printers are injective (on release
 tuples of positive length), so neither conversion can merge two versions. -/
 theorem C34_spellings_injective (v w : Ver) (hv : v.release ≠ []) (hw : w.release ≠ []) :
@@ -659,6 +711,11 @@ example : tagChange "refs/tags/pkg@v1.3.0-rc.1".toList
     some ⟨"v1.3.0-rc.1".toList, "1.3.0-rc.1".toList, .ok .minor⟩ := by decide
 example : tagChange "pkg@v1.2.8".toList ["pkg@v1.3.0".toList, "pkg@v1.2.8".toList] =
     some ⟨"v1.2.8".toList, "1.2.8".toList, .ok .major⟩ := by decide
+/-- the sortedness hypothesis matters: in the order `git tag --sort=-version:refname` prints (a release
+candidate *above* its final release) the candidate is compared against the final release -/
+example : tagChange "pkg@v1.3.0-rc.1".toList
+    ["pkg@v1.3.0-rc.1".toList, "pkg@v1.3.0".toList, "pkg@v1.2.9".toList] =
+    some ⟨"v1.3.0-rc.1".toList, "1.3.0-rc.1".toList, .ok .none⟩ := by decide
 example : List.Pairwise (fun a b : Ver => Ver.Lt b a) [⟨[1, 3, 0], none⟩, ⟨[1, 3, 0], some (.rc, 1)⟩] := by
   simp only [List.pairwise_cons, List.mem_cons, List.not_mem_nil, or_false, forall_eq, false_imp_iff,
     implies_true, List.Pairwise.nil, and_true]
